@@ -41,7 +41,26 @@ def fill(arr, letters, coef, g):
         arr.values[idx] = float(coef * gsum(g, letters, idx))
 
 
-def build(vec, unit):
+def apply_pert(mfa, S, P, unit):
+    if P["obj"] == "none":
+        return
+    if P["obj"] == "flow":
+        name = next(f["name"] for f in S["flows"] if f["id"] == P["id"])
+        target, letters = mfa.flows[name], next(f["dims"] for f in S["flows"] if f["id"] == P["id"])
+    else:
+        st = mfa.stocks[f"stock{P['id']}"]
+        target = st.inflow if P["obj"] == "sin" else (st.outflow if P["obj"] == "sout" else st.stock)
+        letters = next(s["dims"] for s in S["stocks"] if s["id"] == P["id"])
+    idx = tuple(P["lab"][CANON.index(l)] - 1 for l in letters)
+    i, e, nan = P["val"]
+    val = float("nan") if nan else float(i) + e * unit
+    if P["op"] == "add":
+        target.values[idx] += val
+    else:
+        target.values[idx] = val
+
+
+def build(vec, unit, pert_key="pert"):
     S = vec["sys"]
     procs = flodym.make_processes(S["procs"])
     fdefs = []
@@ -63,22 +82,7 @@ def build(vec, unit):
         fill(st.inflow, s["dims"], s["cin"], g)
         fill(st.outflow, s["dims"], s["cout"], g)
         fill(st.stock, s["dims"], s["level"], g)
-    P = vec["pert"]
-    if P["obj"] != "none":
-        if P["obj"] == "flow":
-            name = next(f["name"] for f in S["flows"] if f["id"] == P["id"])
-            target, letters = mfa.flows[name], next(f["dims"] for f in S["flows"] if f["id"] == P["id"])
-        else:
-            st = mfa.stocks[f"stock{P['id']}"]
-            target = st.inflow if P["obj"] == "sin" else (st.outflow if P["obj"] == "sout" else st.stock)
-            letters = next(s["dims"] for s in S["stocks"] if s["id"] == P["id"])
-        idx = tuple(P["lab"][CANON.index(l)] - 1 for l in letters)
-        i, e, nan = P["val"]
-        val = float("nan") if nan else float(i) + e * unit
-        if P["op"] == "add":
-            target.values[idx] += val
-        else:
-            target.values[idx] = val
+    apply_pert(mfa, S, vec[pert_key], unit)
     return mfa
 
 
@@ -92,6 +96,8 @@ def run_vector(vec):
     M = float(vec["maxmag"])
     default_tol = 100 * EPS * M
     for tolmode in ("explicit", "default"):
+        if tolmode == "default" and M == 0:
+            continue        # all magnitudes zero: the two-component numbers have no unit to be multiples of
         tol = 0.01 if tolmode == "explicit" else default_tol
         try:
             mfa = build(vec, tol / 2)
@@ -132,7 +138,7 @@ def run_vector(vec):
                 problems.append(tag + f"outcome {outcome!r}, but every balance is within the tolerance")
     # ---- the same object after all its values were rescaled by 2^k: verdicts follow the CURRENT values
     k = vec.get("rescale", 0)
-    if k and not vec["anynan"]:
+    if k and not vec["anynan"] and M != 0:
         try:
             mfa = build(vec, default_tol / 2)
             sink = Capture()
@@ -172,8 +178,26 @@ def run_vector(vec):
         except Exception as e:
             problems.append(desc + f"{{C02}} rescaled re-check raised {type(e).__name__}: {str(e)[:150]}")
     # ---- check_flows (always the default tolerance)
+    if M == 0:
+        return problems[:6]
+    second_round = vec.get("prev", {"obj": "none"})["obj"] != "none"
+    caller_lists = {tuple(exc): list(exc) for exc, _ in vec["flagged"]}     # the caller re-uses its exception lists
     try:
-        mfa = build(vec, default_tol / 2)
+        if second_round:
+            # the first round of checks saw a NaN in this flow; the entry is then replaced on the SAME object
+            mfa = build(vec, default_tol / 2, pert_key="prev")
+            sink = Capture()
+            root.addHandler(sink)
+            try:
+                for exc, _ in vec["flagged"]:
+                    mfa.check_flows(exceptions=caller_lists[tuple(exc)], raise_error=False)
+                mfa.check_flows()
+            finally:
+                root.removeHandler(sink)
+            apply_pert(mfa, S, vec["pert"], default_tol / 2)
+            desc += "[second round on the same object, after a first round that reported NaN] "
+        else:
+            mfa = build(vec, default_tol / 2)
     except Exception as e:
         return problems + [desc + f"{{C02,C18}} building the system raised {type(e).__name__}"]
     names = sorted(f["name"] for f in S["flows"])
@@ -186,7 +210,11 @@ def run_vector(vec):
             root.setLevel(logging.WARNING)
             outcome = "ok"
             try:
-                mfa.check_flows(exceptions=list(exc), raise_error=raise_error)
+                if not exc and vec["pert"]["lab"] and vec["pert"]["lab"][0] == 1:
+                    mfa.check_flows(raise_error=raise_error)      # the default of `exceptions`
+                else:
+                    mfa.check_flows(exceptions=caller_lists[tuple(exc)], raise_error=raise_error)
+                caller_lists[tuple(exc)] = list(exc)     # (whether the caller's list object is left untouched is not asserted)
             except ValueError:
                 outcome = "raised"
             except Exception as e:
